@@ -104,6 +104,10 @@ fn main() {
             umverif::c02::run(&mut rep);
             rep.finish()
         }
+        "C03" => {
+            umverif::c03::run(&mut rep, "C03");
+            rep.finish()
+        }
         "C05" => {
             umverif::c05::run(&mut rep);
             rep.finish()
@@ -114,6 +118,10 @@ fn main() {
         }
         "C17" => {
             umverif::c17::run(&mut rep);
+            rep.finish()
+        }
+        "C19" => {
+            umverif::c19::run(&mut rep);
             rep.finish()
         }
         "C20" => {
